@@ -8,7 +8,9 @@ from . import core, meta as M, suite_meta as SM, check_meta as CM, check_wrapper
 THEOREMS = ['C07.merge_valid_slice', 'C07.merge_valid_time', 'C07.simplify_valid',
             'C07.subset_slice_valid', 'C07.subset_time_valid', 'C07.subset_vector_valid',
             'C07.subset_slice_raw_valid', 'C07.makeEmpty_bases', 'C07.makeEmpty_valid',
-            'C07.makeEmpty_refuses', 'C07.merge_valid_vector', 'C07.convert_valid', 'C07.split_chain_valid']
+            'C07.makeEmpty_refuses', 'C07.merge_valid_vector', 'C07.convert_valid', 'C07.split_chain_valid',
+            'C07.produced_valid', 'C07.produced_slice_split_total', 'C07.produced_time_split_total',
+            'C07.produced_vector_split_total', 'C07.produced_slice_merge_total']
 
 
 def make_empty_round(rep, r, tier):
